@@ -330,6 +330,40 @@ def utf8_text(rng):
     return "".join(chr(c) for c in cps).encode("utf-8")
 
 
+def liberal_segment(rng):
+    """a self-contained input segment from a grammar WIDER than the item language: anything a terminal or a paste
+    can put between two idle points (mouse reports with parameters, extra parameters and markers, odd initiators)"""
+    k = rng.random()
+    intro = rng.choice([b"\x1b[", b"\x1b[", b"\x9b", b"\x1b\x1b[", b"\x1bO", b"\x8f", b"\x1b\x1bO"])
+    is_csi = intro in (b"\x1b[", b"\x9b", b"\x1b\x1b[")
+    params = ";".join(rng.choice(["", "1", "2", "5", "15", "24", "3", "16", "7", "200"]) for _ in range(rng.choice([0, 0, 1, 1, 2, 3])))
+    marker = rng.choice(["", "", "", "?", ">", "!"])
+    mouse3 = bytes([rng.randrange(32, 128), rng.randrange(33, 128), rng.randrange(33, 128)])
+    if k < 0.25:
+        final = rng.choice(b"ABCDFHIZ~~~~PQRSMmhlJKusn")
+        body = intro + (marker + params).encode() + bytes([final])
+        if final == 0x4D and is_csi:
+            body += mouse3
+        return body
+    if k < 0.45:
+        # a mouse report whose CSI carries parameters / a marker / the meta prefix
+        return rng.choice([b"\x1b[", b"\x9b", b"\x1b\x1b["]) + (marker + params).encode() + b"M" + mouse3
+    if k < 0.6:
+        return bytes([rng.choice([0x61, 0x41, 0x20, 0x7E, 0x00, 0x09, 0x7F, 0x31, 0x3B, 0x5B, 0x4D])])
+    if k < 0.7:
+        return rng.choice([b"\r\n", b"\n\r", b"\r\x00"])
+    if k < 0.85:
+        return intro + params.encode() + rng.choice([b"~", b"A", b"H", b"Z"])
+    return b"\x1b" + bytes([rng.choice([0x41, 0x61, 0x37, 0x5D, 0x28])]) + params.encode() + rng.choice([b"~", b"A", b"x"])
+
+
+def hist_case(rng, n, tag):
+    segs = [liberal_segment(rng) for _ in range(n)]
+    whole = b"".join(segs)
+    line = "I " + " / ".join([hx(whole)] + [hx(s_) for s_ in segs])
+    return line, ["HIST " + tag]
+
+
 class InputPropBase(PropBase):
     """input-decoder properties: one replay per kind of input (sweep / tag), the first failing case of that kind in
     generation order (generators emit the small exhaustive cases before the long random ones)"""
